@@ -4,4 +4,4 @@ go 1.22
 
 require github.com/craterdog/go-collection-framework/v4 v4.0.0
 
-replace github.com/craterdog/go-collection-framework/v4 => /tmp/w/genpool/repo/v4
+replace github.com/craterdog/go-collection-framework/v4 => /repo/v4
